@@ -10,7 +10,7 @@ use serde_json::{Value, json};
 
 use crate::{
     engine::Violation,
-    refmodel::{RetryCfg, render_tagexpr, resolve_retry},
+    refmodel::{RetryCfg, eval_tagexpr, render_tagexpr, resolve_retry},
     tape::Tape,
 };
 
@@ -196,4 +196,107 @@ pub fn gen_case(t: &mut Tape) -> Case {
         filter: t.rare(1, 3).then(|| gen_expr(t, 0)),
     };
     Case { scenario_tags, rule_tags, feature_tags, cfg }
+}
+
+// ------------------------------------------------------------------------------------------
+// the command line itself: `--retry`, `--retry-after`, `--retry-tag-filter`, `--concurrency`,
+// `--fail-fast` as argv strings -> the values the resolver / merge consume
+
+/// Generates a runner option set, renders it as argv in a tape-chosen spelling and order, parses it
+/// with the crate's own `cli::Opts` and compares every field with the generated value.
+pub fn check_cli(t: &mut Tape) -> (Vec<Violation>, Value) {
+    use clap::Parser as _;
+    use cucumber::{cli, runner, tag::Ext as _};
+    let conc = t.rare(1, 2).then(|| 1 + t.pick(200));
+    let ff = t.rare(1, 3);
+    let retry = t.rare(1, 2).then(|| t.pick(12));
+    let after = t.rare(1, 2).then(|| DURS[t.pick(DURS.len())]);
+    let filter = t.rare(1, 2).then(|| gen_expr(t, 0));
+    let mut groups: Vec<Vec<String>> = vec![];
+    let mut opt = |t: &mut Tape, long: &str, short: Option<&str>, val: String| {
+        match (t.pick(3), short) {
+            (0, _) => vec![format!("--{long}={val}")],
+            (1, Some(s)) => vec![format!("-{s}"), val],
+            _ => vec![format!("--{long}"), val],
+        }
+    };
+    if let Some(c) = conc {
+        groups.push(opt(t, "concurrency", Some("c"), c.to_string()));
+    }
+    if ff {
+        groups.push(vec![if t.chance(1, 2) { "--fail-fast".to_string() } else { "--ff".to_string() }]);
+    }
+    if let Some(r) = retry {
+        groups.push(opt(t, "retry", None, r.to_string()));
+    }
+    if let Some(a) = after {
+        groups.push(opt(t, "retry-after", None, a.to_string()));
+    }
+    if let Some(f) = &filter {
+        groups.push(opt(t, "retry-tag-filter", None, render_tagexpr(f)));
+    }
+    // any order
+    let mut argv: Vec<String> = vec!["cucumber".into()];
+    while !groups.is_empty() {
+        let i = t.pick(groups.len());
+        argv.extend(groups.remove(i));
+    }
+    let mut viol = vec![];
+    let sample = json!({"argv": argv});
+    match cli::Opts::<cli::Empty, runner::basic::Cli, cli::Empty>::try_parse_from(&argv) {
+        Err(e) => viol.push(v("cli/rejected", format!("{argv:?} is rejected: {}", e.to_string().lines().next().unwrap_or("")))),
+        Ok(o) => {
+            let r = &o.runner;
+            if r.concurrency != conc {
+                viol.push(v("cli/concurrency", format!("{argv:?}: concurrency parsed as {:?}, given {conc:?}", r.concurrency)));
+            }
+            if r.fail_fast != ff {
+                viol.push(v("cli/fail-fast", format!("{argv:?}: fail_fast parsed as {}, given {ff}", r.fail_fast)));
+            }
+            if r.retry != retry {
+                viol.push(v("cli/retry", format!("{argv:?}: retry parsed as {:?}, given {retry:?}", r.retry)));
+            }
+            let exp_after = after.map(ref_duration);
+            if r.retry_after != exp_after {
+                viol.push(v("cli/retry-after", format!("{argv:?}: retry_after parsed as {:?}, the text means {exp_after:?}", r.retry_after)));
+            }
+            match (&r.retry_tag_filter, &filter) {
+                (None, None) => {}
+                (Some(got), Some(exp)) => {
+                    // same boolean function over every subset of the tag universe
+                    let uni = ["x", "y", "z", "serial", "retry"];
+                    for mask in 0u32..32 {
+                        let tags: Vec<String> = uni.iter().enumerate().filter(|(i, _)| mask & (1 << i) != 0).map(|(_, s)| (*s).to_string()).collect();
+                        if got.eval(tags.iter()) != eval_tagexpr(exp, &tags) {
+                            viol.push(v("cli/retry-tag-filter", format!("{argv:?}: the parsed filter differs from `{}` over tags {tags:?}", render_tagexpr(exp))));
+                            break;
+                        }
+                    }
+                }
+                (g, e) => viol.push(v("cli/retry-tag-filter", format!("{argv:?}: filter parsed as {:?}, given {:?}", g.is_some(), e.is_some()))),
+            }
+            if o.re_filter.is_some() || o.tags_filter.is_some() {
+                viol.push(v("cli/foreign-option", format!("{argv:?}: --name / --tags set although not given")));
+            }
+        }
+    }
+    (viol, sample)
+}
+
+/// Reference reading of the duration texts in `DURS` (value, unit pairs separated by spaces).
+fn ref_duration(text: &str) -> Duration {
+    let mut total = Duration::ZERO;
+    for part in text.split(' ') {
+        let digits: String = part.chars().take_while(char::is_ascii_digit).collect();
+        let n: u64 = digits.parse().unwrap();
+        total += match &part[digits.len()..] {
+            "us" => Duration::from_micros(n),
+            "ms" => Duration::from_millis(n),
+            "s" | "sec" => Duration::from_secs(n),
+            "min" => Duration::from_secs(60 * n),
+            "h" => Duration::from_secs(3600 * n),
+            u => panic!("unit {u} not in the reference table"),
+        };
+    }
+    total
 }
